@@ -1070,7 +1070,7 @@ static PyObject* gbmv(PyObject *self, PyObject *args, PyObject *kwrds)
     if (ku < 0) ku = A->nrows - 1 - kl;
     if (ku < 0) err_nn_int("ku");
 
-    if (ldA == 0) ldA = A->nrows;
+    if (ldA == 0) ldA = MAX(1,A->nrows);
     if (ldA < kl+ku+1) err_ld("ldA");
 
     if (oA < 0) err_nn_int("offsetA");
